@@ -20,11 +20,11 @@ def skel_name(skel):
     return "-".join(NAMES[x] for x in skel)
 
 
-def sync_job(prop_define, skel, mpre=2, timeout=600, mem=12, extra=None, weight=1):
+def sync_job(prop_define, skel, mpre=2, timeout=600, mem=12, extra=None, weight=1, store_inc=2):
     npay = len([x for x in skel if x in (V4, V6, KEY)])
     d = ["SENT_MAX=36", "MPRE=%d" % mpre, "TM_CAP=%d" % (mpre + npay + 1), prop_define,
          "SKEL=" + ",".join(str(x) for x in skel),
-         "RTRLIB_VERIF_MAX_PDU_LEN=160", "RTRLIB_VERIF_PDU_STORE_INCREMENT=2"]
+         "RTRLIB_VERIF_MAX_PDU_LEN=160", "RTRLIB_VERIF_PDU_STORE_INCREMENT=%d" % store_inc]
     cap = mpre + npay + 3
     return core.Job(
         name="sync_" + skel_name(skel), harness="rtr_sync_unit.c", entry="harness", defines=d + (extra or []),
@@ -48,7 +48,7 @@ def sync_job(prop_define, skel, mpre=2, timeout=600, mem=12, extra=None, weight=
         desc="real rtr_sync + rtr_sync_receive_and_store_pdus on the exchange skeleton [%s]: every field of every PDU "
              "(flags, prefixes, lengths, AS, session ids, serial, intervals), the socket state under SInv and the "
              "table pre-state (%d records of this and another cache + 1 router key) are symbolic" % (skel_name(skel), mpre),
-        bounds={"skeleton": skel_name(skel), "pre_records": mpre, "RTR_MAX_PDU_LEN": 160, "store_increment": 2},
+        bounds={"skeleton": skel_name(skel), "pre_records": mpre, "RTR_MAX_PDU_LEN": 160, "store_increment": store_inc},
         stubs=SYNC_STUBS)
 
 
